@@ -1988,6 +1988,13 @@ coap_parse_oscore_conf_mem(coap_str_const_t conf_mem) {
             coap_log_warn("oscore_conf: Maximum size of recipient_id is 7 bytes\n");
             goto error_free_value_bin;
           }
+          for (j = 0; j < oscore_conf->recipient_id_count; j++) {
+            if (coap_binary_equal(oscore_conf->recipient_id[j],
+                                  value.u.value_bin)) {
+              coap_log_warn("oscore_conf: recipient_id duplicated\n");
+              goto error_free_value_bin;
+            }
+          }
           /* Special case as there are potentially multiple entries */
           oscore_conf->recipient_id =
               coap_realloc_type(COAP_STRING,
